@@ -93,3 +93,118 @@ func init() {
 		}
 	})
 }
+
+func init() {
+	register("C08", propInfo{
+		Explanation: "Decides: (rec) the handler goroutine installs its recover before any handler call (only conditional on PanicToException), forwards the recovered value on handlerPanic, and processHandlers waits on handlerPanic/handlerEnd/timer in one select whose panic case calls recoverToErr with the received data; (must) recoverToErr, past its two early returns, always clears acceptance, completes the transition, prepends an Add mutation calling StateException whose AException.Err derives from the recovered data, and restarts the handler loop, and rolls back the final phase iff the faulting handler was final; (val) wherever recover() is called in pkg/machine the error reported derives from the recovered value on every path; (to) the timeout case returns Canceled and the deadline path flushes the queue, forks a loop and records the deadline. Also inherits C01.imm (recovery must not mutate the active set in place).",
+		NotDecided:  "That the rollback set is exactly the unfinished finals, tick parity after recovery at value level, absence of wedging (liveness).",
+		Trusted:     commonTrusted,
+	}, func(c *Ctx) {
+		a := c.core()
+		if a.ok {
+			c.rulesC08(a)
+			c.rule("C08.imm", "fault recovery never mutates in place a slice aliasing Machine.activeStates (the old set is needed to decide which states tick during rollback)")
+			c.inPlaceAliasLint("C08.imm", a.fActive, []string{pm}, 5)
+		}
+	})
+}
+
+func init() {
+	register("C11", propInfo{
+		Explanation: "Decides: (map) in pkg/machine and pkg/graph, every slice whose element order comes from Go map iteration (append inside a map range, slices.Collect(maps.Keys/Values)) is sorted before it reaches a return value, a struct field or an order-sensitive module callee (intra-procedural order taint with a dominating-sort sanitiser); (src) the resolver, auto-mutation builder, transition set-up and state writer do not reach math/rand, crypto/rand or time.Now through static calls; (inplace) no function reorders in place a slice aliasing the machine's ordered state (handlers, state names, tracers).",
+		NotDecided:  "Determinism of user handlers, of stable-sort ties, of values flowing through more than one function (the taint is intra-procedural), of goroutine scheduling.",
+		Trusted:     commonTrusted,
+	}, func(c *Ctx) {
+		c.rulesC11([]string{pm, "pkg/graph"})
+	})
+}
+
+func init() {
+	register("C02", propInfo{
+		Explanation: "Narrow structural claim: (prov) the target applied by setActiveStates is Transition.TargetStates(), every value cached as the transition's target derives from RelationsResolver.TargetStates (or a deletion from it on the partial-auto path) and TargetIndexes from Machine.Index of it; (last) the default resolver returns a parseRequire result with only in-place sorting after it, every parseAdd result is Require-closed and the Remove set is built from State.Remove; (parse) Machine.schema is only assigned the result of Schema.Parse; (kinds) Add/Remove/Require/After are all read in the resolver's call closure.",
+		NotDecided:  "The behavioural core: correctness of the closure/blocking algorithm for arbitrary relation graphs and the 'nothing changes without justification' clause are value-level and not decided by this family.",
+		Trusted:     commonTrusted,
+	}, func(c *Ctx) {
+		a := c.core()
+		if a.ok {
+			c.rulesC02(a)
+		}
+	})
+}
+
+func init() {
+	register("C09", propInfo{
+		Explanation: "Narrow structural claim (convergence itself is liveness over schedules and is not decided): (fb) every call of Client.clockUpdate/clockUpdateMutations either returns its verdict to the caller or falls back to Client.Sync on false; (lock) NetworkMachine.clockMx is released on every exit of clockUpdate/clockSet and updateClock is only entered with it held; (base) Server.lastPushData/lastPush, the diff base shared by pushes and mutation replies, are accessed only under lockExport; (store) every path that sends a diff records the snapshot it was computed from via storeLastPush.",
+		NotDecided:  "Ordering of pushes versus replies on the wire, reconnect behaviour, eventual equality of mirror and source.",
+		Trusted:     commonTrusted,
+	}, func(c *Ctx) {
+		c.rulesC09(c.lockAnalysis())
+	})
+	register("C10", propInfo{
+		Explanation: "Narrow structural claim (round-trip equality is value level and is not decided): (narrow) no unguarded narrowing conversion of tick / queue-tick / machine-tick data in the update encoder; (space) both encoders index the snapshots' mTime, and compare against their length, only through the pushed index, and agree with each other; (sum) one Checksum used by producer and verifier; (dec) the decoder bounds-checks each index; (chk) the client applies the decoded clock only under Checksum(post-update values) == message checksum and returns false on mismatch.",
+		NotDecided:  "Exact round-trip equality for all snapshot pairs, shallow-mode checksum agreement, chains of per-mutation updates.",
+		Trusted:     commonTrusted,
+	}, func(c *Ctx) {
+		c.rulesC10()
+	})
+}
+
+func init() {
+	register("C17", propInfo{
+		Explanation: "Decides structural conditions of faithful history: (eff) in every backend's FindLatest matcher each loop over a Query state condition influences the record's fate (no effect-free filter loops); (idx) TimeRecord.MTimeTracked is indexed only in the tracked-state index space; (rot) the in-memory log append is always preceded by the MaxRecords rotation and every constructor defaults MaxRecords to a positive value; (rec) each backend's tracer records tracked times derived from tx.TimeAfter; (imp) Import sets machineTick to the exported tick + 1.",
+		NotDecided:  "Exactly-one-record-per-match, equality of answers across backends, persistence at crash points, the SQL query text.",
+		Trusted:     commonTrusted,
+	}, func(c *Ctx) {
+		c.rulesC17()
+	})
+}
+
+func init() {
+	register("C18", propInfo{
+		Explanation: "Decides: (go) which pipe handler branches fork the target mutation into a goroutine (order of the source's events is then not preserved); (kind) add-built handlers only issue Add-type target mutations, remove-built only Remove-type, BindAny only a synchronous Set; (wire) every <X>State slot in every user of the pipe constructors is filled from the Add family and every <X>End slot from the Remove family, including the reflect-built structs of Bind/BindMany; (final) pipe handlers have type HandlerFinal and cannot veto the source.",
+		NotDecided:  "Eventual equality of source and target under real interleavings; behaviour of the network-machine target.",
+		Trusted:     commonTrusted,
+	}, func(c *Ctx) {
+		c.rulesC18()
+	})
+}
+
+func init() {
+	register("C19", propInfo{
+		Explanation: "Structural half only: every package-level am.Schema variable of the module is evaluated statically (closed idiom set: literals, Merge/SchemaMerge, Extend/StateAdd/StateSet, S/SAdd, NewStates/NewStateGroups selectors; anything else makes the check undecided) and each exported schema is checked for: relation targets that are defined or built-in, no Require cycle, no Require/Remove conflict through the Require closure, key set equal to its typed StatesDef, and exclusive state groups whose every member Removes the rest of the group.",
+		NotDecided:  "The reachability clause (no Add1/Remove1 sequence reaches an active set breaking Require closure or a group): needs executing the resolver or a model of it, which is a different technique family.",
+		Trusted:     commonTrusted,
+	}, func(c *Ctx) {
+		c.rulesC19()
+	})
+}
+
+func init() {
+	register("C20", propInfo{
+		Explanation: "High-precision lints for totality/algebra/copying in pkg/machine, pkg/helpers, pkg/integrations, pkg/states/pipes (C20.rec and C20.ok also over pkg/rpc and pkg/node): no unconditional self-recursion; no dereference or call of a value known nil after a failed comma-ok lookup/assertion or a true nil check; constant indexes and constant-bound re-slices of machine-owned slices are length-guarded; variadic loops starting at 1 also use element 0; no if/else with identical constant returns; documented copy-getters return fresh values; explicit panics equal the sanctioned table; S.Add/Add1/SAdd return slicesUniq results and Sub/Shared/Equal delegate correctly.",
+		NotDecided:  "Totality in general (arbitrary bounds checks, nil maps from callers), blocking behaviour of wait helpers, the full set algebra at value level.",
+		Trusted:     commonTrusted,
+	}, func(c *Ctx) {
+		c.rulesC20()
+	})
+}
+
+func init() {
+	register("C15", propInfo{
+		Explanation: "Decides: (conf) the unlocked Supervisor.workers map is touched only by Supervisor methods on the handler goroutine, never from a go closure or free function; (gate) ForkWorkerEnter/ForkingWorkerEnter can return true only under len(workers) < Max, PoolReadyEnter/Exit compare len(readyWorkers()) with min() in the right direction and min() is capped by Max; (ins) every insertion into workers is bounded (replace, guarded, or gated by the handler's own Enter); (kill) ErrWorkerState requests KillingWorker above WorkerErrKill; (grp) the PoolStatus, PoolNormalized and WorkStatus groups are mutually exclusive by construction in the evaluated schemas.",
+		NotDecided:  "Readiness 'at that moment' versus RPC staleness, timing, the interleavings of fork/kill/heartbeat rounds.",
+		Trusted:     commonTrusted,
+	}, func(c *Ctx) {
+		c.rulesC15()
+	})
+}
+
+func init() {
+	register("C16", propInfo{
+		Explanation: "Minimal structural claim: the index alignment of the debugger's three per-transition arrays. hParseMsg appends exactly one MsgTxsParsed element and exactly one LogMsgs element (directly or via hParseMsgLog) on every path; every append to MsgTxs is immediately followed by hParseMsg for the old length; every re-slice of one of the three arrays is mirrored on the other two with the same bounds.",
+		NotDecided:  "Correctness of derived data (added/removed/touched, time sums), binary-search lookups, cursor navigation, filters, export/import equality: all value-level and not decided by this family.",
+		Trusted:     commonTrusted,
+	}, func(c *Ctx) {
+		c.rulesC16()
+	})
+}
